@@ -5,7 +5,7 @@ Line-protocol driver for C22. One server configuration per case, then requests.
 
   cfg pfx=</a/b|-> auth=0|1 proof=0|1 pkce=0|1 upload=0|1 introspect=0|1 sticky=0|1
       describe=0|1 landing=0|1 notfound=0|1 custom=<VERB:/pat,...|->       -> ok
-  req <VERB> <path> inner=<accept:NAME|anon|failure|wrapped|value|perm|unavail|rpcother|other|nilnil|ctx+<refusal>>
+  req <VERB> <path> inner=<accept:NAME|anon|failure|wrapped|value|perm|unavail|rpcother|other|nilnil|ctx+<refusal>|chain:m1/m2/…>
       proof=<absent|valid|bad> ct=<arrow|other> body=<empty|garbage|valid|mismatch|count:N|tok-unknown|tok-jws|tok-down>
       sess=<absent|garbage|fresh>                                           -> gate=<denied|open|na> ev=<...|->
   fail <pkce-nometa|pkce-noclient|oauthmeta-invalid|introspect-noresolver|introspect-noprincipals>
@@ -85,7 +85,8 @@ def parseCfg (ws : List String) : Option Cfg := do
     describePage := ← b "describe"
     landingPage := ← b "landing"
     notFoundPage := ← b "notfound"
-    custom := ← (g "custom").bind parseCustoms }
+    custom := ← (g "custom").bind parseCustoms
+    rotated := ((g "rotate").bind bool?).getD false }
 
 def parseInnerPlain (s : String) : Option Inner :=
   if s.startsWith "accept:" then some (.accept (s.drop 7).toString)
@@ -111,6 +112,12 @@ def parseInner (s : String) : Option Inner :=
       | _ => none)
   else parseInnerPlain s
 
+/-- `chain:m1/m2/…` — the authenticator is `ChainAuthenticate` over members with these behaviours -/
+def parseInnerOrChain (s : String) : Option Inner :=
+  if s.startsWith "chain:" then
+    (((s.drop 6).toString.splitOn "/").mapM parseInner).map chainOutcome
+  else parseInner s
+
 def parseBody (s : String) : Option Body :=
   if s = "empty" then some .empty
   else if s = "garbage" then some .garbage
@@ -134,7 +141,7 @@ def parseReq (verb path : String) (ws : List String) : Option Req := do
     | "absent" => some SessKind.absent | "garbage" => some .garbage | "fresh" => some .fresh | _ => none
   if verb.isEmpty then none
   some { verb := verb, path := segs, slash := sl, ctArrow := ct, body := ← (g "body").bind parseBody,
-         inner := ← (g "inner").bind parseInner, proof := proof, sess := sess }
+         inner := ← (g "inner").bind parseInnerOrChain, proof := proof, sess := sess }
 
 def showEvent : Event → String
   | .handler => "handler"
